@@ -291,6 +291,7 @@ func checkC19(c *Check) {
 	checkFraming(c)
 	// the parameters acted upon are those of this request (no field inherited from the previous message)
 	checkFreshDecode(c, "7/request-is-fresh")
+	checkWireTypes(c, "10/wire-types")
 
 	// ---------- 9: the control buffer holds the largest message the kernel can deliver ----------
 	// 253 descriptors (SCM_MAX_FD) plus a credential record (the host end has SO_PASSCRED): CMSG_SPACE(253*4) +
